@@ -5,6 +5,7 @@ import (
 	"fmt"
 	"math"
 	"math/rand"
+	"strconv"
 
 	"verif/harness/core"
 )
@@ -89,9 +90,39 @@ func randLen(r *rand.Rand, max int) int {
 	}
 }
 
+// longDecimal: a float64 whose shortest decimal form has (nearly always)
+// exactly sig significant digits - the mantissa is drawn with that many
+// digits, beyond 2^53 for 16 and 17 - and up to 22 of them after the point.
+func longDecimal(r *rand.Rand, sig int) float64 {
+	lo := int64(1)
+	for i := 1; i < sig; i++ {
+		lo *= 10
+	}
+	m := lo + r.Int63n(9*lo)
+	if sig == 16 && r.Intn(4) > 0 {
+		m = 1<<53 + r.Int63n(10*lo-1<<53) // integers of 16 digits that float64 cannot all hold
+	}
+	if m%10 == 0 {
+		m++
+	}
+	f, err := strconv.ParseFloat(strconv.FormatInt(m, 10)+"e-"+strconv.Itoa(r.Intn(23)), 64)
+	if err != nil {
+		return 0.1
+	}
+	if r.Intn(2) == 0 {
+		f = -f
+	}
+	return f
+}
+
 func randFloat(r *rand.Rand) float64 {
-	if r.Intn(3) == 0 {
+	switch r.Intn(9) {
+	case 0, 1, 2:
 		return specialFloats[r.Intn(len(specialFloats))]
+	case 3, 4:
+		return longDecimal(r, 16)
+	case 5:
+		return longDecimal(r, 15+r.Intn(3))
 	}
 	for {
 		var f float64
@@ -198,6 +229,18 @@ func randomCases(ctx *core.Ctx) []*fmtCase {
 		for _, vals := range [][]Val{{vRealF(f)}, {vInt(1), vRealF(f), vInt(2)}, {vRealF(f), vRealF(-f), vName([]byte("N")), vRealF(f)}} {
 			out = append(out, &fmtCase{Origin: "random/real", Vals: vals, Want: NormSeq(vals)})
 		}
+	}
+	// reals whose shortest form has 15, 16 and 17 significant digits, every scale
+	for i := 0; i < 600; i++ {
+		f := longDecimal(r, 15+i%3)
+		if i%3 == 2 {
+			f = longDecimal(r, 16)
+		}
+		vals := []Val{vRealF(f)}
+		if i%4 == 0 {
+			vals = []Val{vArr(vInt(1), vRealF(f), vRealF(-f)), vDict(map[string]Val{"K": vRealF(f)})}
+		}
+		out = append(out, &fmtCase{Origin: "random/real", Vals: vals, Want: NormSeq(vals)})
 	}
 	for _, x := range specialInts {
 		for _, vals := range [][]Val{{vInt(x)}, {vInt(x), vInt(x), vRef(7, 0)}, {vArr(vInt(x), vInt(-x))}} {
